@@ -161,7 +161,8 @@ func implView(o *WOutcome) string {
 	}
 	r := "ok"
 	if o.Status != 0 {
-		r = "abort:" + classifyAbort(errText(o.Stderr))
+		last, _ := lastAbort(errText(o.Stderr))
+		r = "abort:" + classifyAbort(last)
 	}
 	var ws []string
 	var lines []string
